@@ -65,3 +65,22 @@ def pub_der(name: str) -> bytes:
         else:
             _cache[k] = bytes(ECC.import_key(der).public_key().export_key(format='DER'))
     return _cache[k]
+
+
+@contextlib.contextmanager
+def fixed_now(iso='2024-02-29T12:00:00+00:00'):
+    """Own datetime.now() inside ndn.app_support.security_v2 (self_sign / sign_req read the wall clock)."""
+    import datetime as _dt
+    import ndn.app_support.security_v2 as sv2
+    instant = _dt.datetime.fromisoformat(iso)
+
+    class FixedDateTime(_dt.datetime):
+        @classmethod
+        def now(cls, tz=None):
+            return instant if tz is not None else instant.replace(tzinfo=None)
+    old = sv2.datetime
+    sv2.datetime = FixedDateTime
+    try:
+        yield instant
+    finally:
+        sv2.datetime = old
